@@ -43,6 +43,8 @@ type hcOp struct {
 	Ctr  *hcCtrSpec `json:"ctr,omitempty"`
 	Cfg  *vhConfig  `json:"cfg,omitempty"`
 	Undo bool       `json:"undo,omitempty"` // after a failed create: runtime sends stop+remove
+	// several requests delivered concurrently (C15)
+	Phase *hcPhase `json:"phase,omitempty"`
 }
 
 type hcCase struct {
@@ -345,8 +347,21 @@ type stepResult struct {
 	PreState map[string]string // model state of every container before the request
 	// per-reply findings, judged against the model at the time of each reply
 	PreSnap, PostSnap map[string]string // observables around a re-applied configuration
-	BadTargets []string // updates addressed to containers the runtime has stopped/removed/never had
-	DupTargets []string // more than one update for a container in one reply/push
+	BadTargets        []string          // updates addressed to containers the runtime has stopped/removed/never had
+	DupTargets        []string          // more than one update for a container in one reply/push
+	// concurrent phase: the request kind that can have taken a container's allocation away
+	LostBy map[string]string
+}
+
+// lostBy names the request in which a container can have lost its allocation.
+func (r *stepResult) lostBy(id string) string {
+	if h, ok := r.LostBy[id]; ok {
+		return h
+	}
+	if h, ok := r.LostBy["*"]; ok {
+		return h
+	}
+	return r.Handler
 }
 
 var bg = context.Background()
@@ -401,10 +416,10 @@ type executor struct {
 	// containers that had an undelivered change when a request failed
 	tainted map[string]bool
 	// a policy event changed containers; no NRI reply has had a chance to carry the change yet
-	eventPending      bool
+	eventPending       bool
 	inRejectedReconfig bool
-	rejectedReconfigs int
-	reconfigured      bool // an accepted reconfiguration happened in this history
+	rejectedReconfigs  int
+	reconfigured       bool // an accepted reconfiguration happened in this history
 	// set by onTold-style observers that find a violation while a reply is collected
 	pendingViolation *vfkit.Violation
 	initial          map[string]string
@@ -696,6 +711,9 @@ func (e *executor) exec(op hcOp) *stepResult {
 		_, r.Err = e.h.coldStartDone(c.ID)
 		// changes made by an event are not returned by any request; they stay
 		// pending until the next reply. Not part of the C05 contract.
+	case "phase":
+		r.Desc = "concurrent-phase"
+		e.execPhase(op, r)
 	default:
 		panic("unknown op " + op.Kind)
 	}
